@@ -968,7 +968,13 @@ fn pb_codec_value(r: &mut Rng, w: &World, codec: &str) -> (Vec<u8>, Vec<Span>, u
         "string" | "faststr" | "bytes" | "bytes_vec" => {
             wt = 2;
             let n = *r.pick(&[0usize, 1, 5, 127, 128, 1000]);
-            let body: Vec<u8> = if codec.starts_with("bytes") || r.chance(1, 8) { r.bytes(n) } else { (0..n).map(|_| b'a' + r.below(26) as u8).collect() };
+            let body: Vec<u8> = if codec.starts_with("bytes") || r.chance(1, 8) {
+                r.bytes(n)
+            } else if r.chance(1, 3) {
+                crate::tval::multibyte_text(r, n)
+            } else {
+                (0..n).map(|_| b'a' + r.below(26) as u8).collect()
+            };
             e.len_prefixed(&body, true);
         }
         "message" | "hash_map_str_node" | "btree_map_str_msg" | "hash_map_i32_str" => {
